@@ -9,7 +9,8 @@
 From Coq Require Import ZArith List Bool Lia.
 Import ListNotations.
 Require Import Base.Py Base.ZList Gen.Gen_tags Model.Crc Model.Ogg Model.Fam_flac Model.Fam_ogg
-  Proofs.Fam_ogg_c01 Proofs.C09_policy Proofs.Fam_ogg_examples.
+  Proofs.C15_page Proofs.Fam_ogg_inject Proofs.Fam_ogg_thms Proofs.Fam_ogg_c01 Proofs.Fam_ogg_samesize Proofs.Fam_ogg_c09
+  Proofs.C09_policy Proofs.Fam_ogg_examples.
 Open Scope Z_scope.
 
 Theorem C09_ogg_arithmetic : forall c t pad cb fsize old d, ogg_f_new_packet c t pad cb fsize old = Ok d ->
@@ -38,6 +39,31 @@ Print Assumptions C09_ogg_measured.
 Theorem C09_ogg_no_callback_is_default : forall p s, _get_padding None p s = _get_padding (Some get_default_padding) p s.
 Proof. exact no_callback_is_default. Qed.
 Print Assumptions C09_ogg_no_callback_is_default.
+
+(* (d) a new comment packet of the old length (in particular: a callback that returns the padding it is offered, when
+   the new comment fits): every page of the file keeps its size -- hence its offset -- the pages of all other streams
+   are the same pages, and the file length is unchanged (files read by the strict walker before and after) *)
+Theorem C09_ogg_same_size : forall f c t pad cb f' pages,
+  ogg_parse f = Ok pages -> ogg_f_streams_ok pages = true ->
+  ogg_save_obj f c t pad cb = Ok f' ->
+  exists olds news k,
+    cut_ok c t pad cb pages olds news k /\ ogg_parse f' = Ok (cut_result k news) /\
+    (c <> OFlac -> zlen (cut_d k) = zlen (cut_p0 k) ->
+     Forall2 (fun p p' => page_size p' = page_size p /\ (p_serial p <> cut_s k -> p' = p)) pages (cut_result k news) /\
+     zlen f' = zlen f).
+Proof. exact save_obj_same_size. Qed.
+Print Assumptions C09_ogg_same_size.
+
+Theorem C09_ogg_keep : forall f c t pad f' pages, c <> OFlac -> (c = OOpus -> pad = []) ->
+  ogg_parse f = Ok pages -> ogg_f_streams_ok pages = true ->
+  ogg_save_obj f c t pad (Some cb_keep) = Ok f' ->
+  exists olds news k,
+    cut_ok c t pad (Some cb_keep) pages olds news k /\ ogg_parse f' = Ok (cut_result k news) /\
+    (zlen (ogg_vdata c t) <= zlen (cut_p0 k) ->
+     Forall2 (fun p p' => page_size p' = page_size p /\ (p_serial p <> cut_s k -> p' = p)) pages (cut_result k news) /\
+     zlen f' = zlen f).
+Proof. exact save_obj_keep. Qed.
+Print Assumptions C09_ogg_keep.
 
 Example C09_ogg_ex :
   ogg_save ex_vorbis OVorbis ex_tags (Some (cb_const 2)) = Ok ex_vorbis_saved /\ ogg_wf ex_vorbis_saved = true /\
